@@ -401,3 +401,75 @@ class GroupPipe:
                         of[k] = S(of[k]) + const(Fraction(float(d.ravel()[k]))) * S(flat[j])
                     out[o] = of.reshape(np.shape(out[o])) if out[o].ndim else of[0]
         return {n: symify(out[n]) for n in sc.out_names}
+
+
+def by_name_obligations(prob, root="", extra=None, assume_for=None, abstract=(), skip_inputs=(), label=""):
+    """Name-consistency of a real group's wiring.  In the groups this is applied to, the library's convention is that a
+    component input is the variable of the same (promoted) name in the enclosing group: an output of a sibling component
+    when there is one, a group input otherwise.  The group is executed twice over the same symbols - through its real
+    connection table (GroupPipe) and with every input resolved by name - and every component output must agree.
+    Returns (obligation specs, GroupPipe): specs are (id, real value, by-name value, component path, output name)."""
+    import openmdao.api as om
+
+    G = GroupPipe(prob, root=root, extra=extra, assume_for=assume_for, abstract=abstract)
+    G.run()
+    top = prob.model if not root else prob.model._get_subsystem(root)
+    pre = (root + ".") if root else ""
+    byname = {}  # local variable name -> value (outputs of the group's components, then the group's external inputs)
+    for comp in G.leaves:
+        if isinstance(comp, om.IndepVarComp):
+            for n in comp._var_rel_names["output"]:
+                byname.setdefault(n, G.vals[comp.pathname + "." + n])
+    ext_by_local = {}
+    for abs_in, src in G.conn.items():
+        if abs_in.startswith(pre) and (src.startswith("_auto_ivc") or not src.startswith(pre)) and src in G.vals:
+            ext_by_local.setdefault(abs_in.rsplit(".", 1)[-1], G.vals[src])
+    specs = []
+    for comp in G.leaves:
+        if isinstance(comp, (om.IndepVarComp, om.ImplicitComponent)) or type(comp).__module__.startswith("openmdao"):
+            # implicit states are shared symbols; OpenMDAO's own components are taken as wired
+            for n in comp._var_rel_names["output"]:
+                if comp.pathname + "." + n in G.vals:
+                    byname[n] = G.vals[comp.pathname + "." + n]
+            continue
+        sc = G._wrap(comp)
+        ins = {}
+        ok = True
+        for n in sc.in_names:
+            abs_in = comp.pathname + "." + n
+            if n in skip_inputs:
+                v = G.vals.get(G.conn.get(abs_in))
+            elif n in byname:
+                v = byname[n]
+            elif n in ext_by_local:
+                v = ext_by_local[n]
+            else:
+                v = G.vals.get(G.conn.get(abs_in))
+            if v is None:
+                ok = False
+                break
+            src = G.conn.get(abs_in)
+            a = _conv(np.asarray(v, dtype=object), G.meta_out[src].get("units") if src in G.meta_out else None, G.meta_in[abs_in].get("units")) if src else v
+            a = np.asarray(a, dtype=object)
+            if a.shape != sc.shape(n):
+                if a.size != int(np.prod(sc.shape(n))):
+                    ok = False  # src_indices or a deliberately different variable: not a by-name input
+                    break
+                a = a.reshape(sc.shape(n))
+            ins[n] = a
+        if not ok:
+            for n in sc.out_names:
+                byname[n] = G.vals.get(comp.pathname + "." + n, G.abstracted.get(comp.pathname + "." + n))
+            continue
+        extra_assume = G.assume_for[type(comp).__name__](ins) if type(comp).__name__ in G.assume_for else []
+        out = sc.sym1(ins, assumptions=extra_assume)
+        for n in sc.out_names:
+            absn = comp.pathname + "." + n
+            real = G.abstracted.get(absn, G.vals.get(absn, G.computed_for_guess.get(absn)))
+            if real is None:
+                continue
+            specs.append(("%s%s.%s" % (label, comp.pathname[len(pre):], n), real, out[n], comp.pathname, n))
+            # downstream by-name consumers see what the real run publishes under that name (each component is judged on
+            # its own inputs; one broken link is reported once, not propagated)
+            byname[n] = G.vals.get(absn, out[n])
+    return specs, G
